@@ -96,6 +96,9 @@ def inputs(rng, name, tier, n):
             for ln in (511, 512, 513, 1000, 4096):
                 out.append((cheap, H.pw_bytes(rng, ln, "ascii"), "long-ascii"))
             out.append((cheap, H.pw_text(rng, 300), "long-text"))
+            # long runs of multi-byte characters only (no ASCII byte anywhere near the cut)
+            for txt in ("é" * 300, "日" * 200, "\U0001f600" * 140, "a" * 70 + "é" * 300, "a" * 71 + "中" * 200):
+                out.append((cheap, txt, "long-multibyte-run"))
     for k, st in enumerate(slist[:n]):
         ln = H.C02_LENGTHS[(k * 5 + len(name)) % len(H.C02_LENGTHS)]
         kind = ("ascii", "binary", "high", "text")[k % 4]
